@@ -12,8 +12,9 @@
                                  `ok n | x y | …` (implementation: the vertices of the map `grisubal none …`
                                  returned that lie inside the segment); `gcrosss …` (model only): `dart t s ; …`
     gcrossd <cx> <cy> <ox> <oy> <nx> <ny> x1 y1 x2 y2
-                                 the `(dart, t)` pairs of step 1 in identifier order, `ok dart t ; …` (implementation:
-                                 the hook `grisubal::verif::intersection_data` on a fresh nx × ny grid)
+                                 the slots of step 1 in identifier order, `ok dart t ; …`, a slot left at
+                                 `(NULL_DART_ID, NaN)` printed `0 nan` (implementation: the hook
+                                 `grisubal::verif::intersection_data` on a fresh nx × ny grid; model: `slotsOf`)
     bndinit                      the 2-D session map gets the `Boundary` storage of the clip step (storage 9)
     wbnd <dart> <L|R|N|->        `force_write_attribute::<Boundary>(dart, Left|Right|None)` / remove; reply `ok`
     clip left|right              `clip_left` / `clip_right` (`Model/Clip.lean`): `ok` /
@@ -107,9 +108,12 @@ def topCapture (s : Sess) (toks : List String) : Option (Sess × String) :=
       | some cx, some cy, some ox, some oy, some nx, some x1, some y1, some x2, some y2 =>
           if cx ≤ 0 ∨ cy ≤ 0 then some (s, "bad-op") else
           let g : GGrid := { ox := ox, oy := oy, cx := cx, cy := cy, nx := nx }
-          let cs := crossingsMeta g epsF64 (x1, y1) (x2, y2)
+          let cs := slotsOf g epsF64 (x1, y1) (x2, y2)
           if cs.isEmpty then some (s, "ok")
-          else some (s, "ok " ++ " ; ".intercalate (cs.map fun c => s!"{c.dart} {ratStr c.t}"))
+          else some (s, "ok " ++ " ; ".intercalate (cs.map fun c =>
+            match c with
+            | some (d, t) => s!"{d} {ratStr t}"
+            | none => "0 nan"))
       | _, _, _, _, _, _, _, _, _ => some (s, "bad-op")
   | [cmd, cx, cy, ox, oy, nx, x1, y1, x2, y2] =>
       if cmd ≠ "gcross" ∧ cmd ≠ "gcrosss" then none else
